@@ -1,5 +1,6 @@
 import PyecoreModel.Lemmas.StoreNav
 import PyecoreModel.Lemmas.FragmentText
+import PyecoreModel.Lemmas.NamedTree
 /-!
 # C11 — An object's URI fragment always resolves back to that object
 
@@ -68,3 +69,30 @@ theorem C11_fragment_text (single : Bool) (p : Path) (hn : ∀ s ∈ p.segs, Nam
 example : renderPath false ⟨2, [("kids".toList, some 0), ("leaf".toList, none)]⟩ = "/2/@kids.0/@leaf".toList := by decide
 
 end XDoc
+
+namespace NamedTree
+
+/-- **Name-based fragments of metamodel elements**: in a tree of named elements where no two elements contained in the
+same element bear the same name, the fragment of every element (the names on the way down from the root package)
+resolves to that very element … -/
+theorem C11_named_resolve (t : NT) (hu : t.Uniq) (p : List Nat) (ns : List String) (h : t.frag p = some ns) :
+    t.resolve ns = some p := resolve_frag t p ns hu h
+
+/-- … and two different elements never have the same fragment. -/
+theorem C11_named_injective (t : NT) (hu : t.Uniq) (p q : List Nat) (ns : List String)
+    (hp : t.frag p = some ns) (hq : t.frag q = some ns) : p = q := frag_injective t hu p q ns hp hq
+
+/-- (what a fragment resolves to bears that fragment — whatever the names: with two siblings of one name the *first* one
+answers for both, which is how the uniqueness hypothesis above cannot be dropped) -/
+theorem C11_named_sound (t : NT) (ns : List String) (p : List Nat) (h : t.resolve ns = some p) : t.frag p = some ns :=
+  frag_resolve t ns p h
+
+def exPkg : NT := .node "p" [.node "org.ex" [.node "B" [.node "a.b" []]], .node "A" [.node "x" [], .node "op" [.node "arg" []]]]
+
+example : exPkg.frag [1, 1, 0] = some ["A", "op", "arg"] ∧ exPkg.resolve ["A", "op", "arg"] = some [1, 1, 0] ∧
+    exPkg.resolve ["org.ex", "B", "a.b"] = some [0, 0, 0] := by decide
+/-- without uniqueness: an attribute and an operation of one class named alike share a fragment, the first one answers -/
+example : (NT.node "p" [.node "B" [.node "op" [], .node "op" []]]).frag [0, 1] = some ["B", "op"] ∧
+    (NT.node "p" [.node "B" [.node "op" [], .node "op" []]]).resolve ["B", "op"] = some [0, 0] := by decide
+
+end NamedTree
